@@ -1388,7 +1388,7 @@ func (e stepEngine) Preflight(st *Stats) (*Violation, interface{}) {
 	case 1:
 		return e.preflightInfinite(st)
 	case 2:
-		return nil, nil
+		return e.preflightConstructs(st)
 	}
 	nf := len(recursionForms("r"))
 	for f := 0; f < nf; f++ {
@@ -1463,6 +1463,47 @@ func (e stepEngine) preflightInfinite(st *Stats) (*Violation, interface{}) {
 }
 
 const si0 = 0
+
+// stepConstructs: one small program per construct through which script code is
+// entered (every callback-taking built-in, accessor, coercion, eval form, host
+// re-entry route, bridged Go function, context reader, debugger handler, ...).
+// Each is swept exhaustively - an interrupt of every kind at every step - once
+// per run, so that no construct waits for the draw.
+func stepConstructs() []string {
+	tx := txText(0)
+	fn := "function(x){var t;" + tx + "return x}"
+	cs := []string{
+		"[1,2].forEach(" + fn + ");", "[1,2].map(" + fn + ");", "[1,2,3].filter(" + fn + ");", "S.n+=[1,2].reduce(function(a,x){var t;" + tx + "return a+x},0);",
+		"[3,1,2].sort(function(a,b){var t;" + tx + "return a-b});", "S.srt.sort(function(a,b){var t;" + tx + "return b-a});", "'aXbX'.replace(/X/g,function(m){var t;" + tx + "return m});",
+		"JSON.stringify({toJSON:function(){var t;" + tx + "return 1}});", "JSON.stringify([1,2],function(k,v){var t;" + tx + "return v});", "JSON.parse('[1,2]',function(k,v){var t;" + tx + "return v});",
+		"[1,2].some(" + fn + ");", "[1,2].every(" + fn + ");", "S.n+=hreflect(2," + fn + ");",
+		"var o1={get p(){var t;" + tx + "return 1}};o1.p;", "var o2={set p(x){var t;" + tx + "}};o2.p=1;", "S.n+=+{valueOf:function(){var t;" + tx + "return 1}};", "(''+{toString:function(){var t;" + tx + "return 'x'}});",
+		"try{(0,{toString:function(){var t;" + tx + "return 'x'}})()}catch(c1){}", "try{Number.prototype.toFixed.call({valueOf:function(){var t;" + tx + "return 1}},1)}catch(c2){}",
+		"eval(" + strconv.Quote("var t;"+tx+"1") + ");", "(0,eval)(" + strconv.Quote("var t;"+tx+"1") + ");", "Function(" + strconv.Quote("var t;"+tx+"return 1") + ")();", "heval(" + strconv.Quote("var t;"+tx+"1") + ");",
+		"function fa(n){var t;" + tx + "return n}\nhcall('fa',1);", "function fb(n){var t;" + tx + "return n}\nhvcall(fb,1);", "function fc(n){var t;" + tx + "return n}\nhrun('fc(1)');", "function fd(n){var t;" + tx + "return n}\nhobj(fd);",
+		"function fe(n){var t;" + tx + "return n}\nfe.call(null,2);fe.apply({},[2]);fe.bind(null,2)();new fe(2);",
+		"with({get wq(){var t;" + tx + "return 1}}){hctx();}", "debugger;" + tx, "try{throw 1}catch(c3){" + tx + "}finally{" + tx + "}", "try{try{throw 1}finally{" + tx + "}}catch(c4){" + tx + "}",
+		"L1:for(var i=0;i<2;i++){L2:for(var j=0;j<2;j++){" + tx + "if(j)continue L1;}}", "switch(C++%2){case 0:" + tx + "case 1:" + tx + "break;default:}", "with({wx:1}){" + tx + "}",
+		"for(var k in {a:1,b:2}){" + tx + "}", "var c5=(function(){var k=0;return function(){k++;var t;" + tx + "return k}})();c5();", "do{" + tx + "}while(C++<2);", "hf();" + tx + "hf();",
+	}
+	return cs
+}
+
+func (e stepEngine) preflightConstructs(st *Stats) (*Violation, interface{}) {
+	for ci, body := range stepConstructs() {
+		for _, entry := range []string{"run", "valuecall"} {
+			if (ci+len(entry))%2 == 1 && curTier != "thorough" {
+				continue // quick: one entry route per construct
+			}
+			c := &StepCase{Engine: "stepsim", Mode: "exhaustive", ChanCap: 1, Entry: entry, Debugger: true, Body: "var t;\n" + body + "\n", Seed: uint64(ci + 1)}
+			if v, rc, _ := e.Exec(c, st); v != nil {
+				return v, rc
+			}
+		}
+	}
+	st.Probe("construct_grid_swept_exhaustively")
+	return nil, nil
+}
 
 // execCopyGrid: one explicit case run on a Copy() (see Preflight).
 func execCopyGrid(c *StepCase, st *Stats) (*Violation, interface{}, bool) {
